@@ -75,6 +75,7 @@ func checkC01(ci interface{}, st *Stats) error {
 	lr := classifyGrammar(g, st)
 	ref := NewRef(g, in)
 	probe := NewProbe()
+	probe.InLen = len(in)
 	b := Build(g, BuildOpts{MemoRules: c.memoRules(), Probe: probe})
 	type q struct {
 		got  TreeSet
